@@ -17,7 +17,7 @@ import re
 from .common import walk, src, strip, AnchorError, load_table, REPO, pat_alternatives, tail_expr
 from .c11 import parents_map
 
-SUPPORT = {"math": None, "Optional": "typing", "Union": "typing", "Tuple": "typing", "Callable": "typing", "Any": "typing", "NewType": "typing",
+SUPPORT = {"math": None, "Optional": "typing", "Union": "typing", "Tuple": "typing", "Callable": "typing", "Any": "typing", "NewType": "typing", "Collection": "typing",
            "ABC": "abc", "abstractmethod": "abc"}
 
 
@@ -180,6 +180,20 @@ def run(chk, facts):
         m = strip(tail_expr(ctp["body"]))
         if m.get("k") != "match":
             raise AnchorError("concrete_to_python is no longer a match table")
+        # type names that StringName::to_py renders by an arm of its own never reach the table as a *type*
+        dedicated = set()
+        try:
+            tp = [f for f in syn.find_fn("to_py", mod="generate::name", impl_of="StringName")]
+            if len(tp) == 1:
+                mm = [n for n in walk(tp[0]["body"]) if n.get("k") == "match"]
+                for a2 in (mm[0]["arms"] if mm else []):
+                    for alt2 in pat_alternatives(a2["pat"]):
+                        if alt2.get("k") in ("ppath", "pident") and "::" in src(alt2):
+                            v = consts.get("check::context::clss::" + src(alt2).split("::")[-1])
+                            if v:
+                                dedicated.add(v)
+        except AnchorError:
+            pass
         rows = 0
         for a in m["arms"]:
             for alt in pat_alternatives(a["pat"]):
@@ -202,6 +216,8 @@ def run(chk, facts):
                     ok, why = True, "a Python builtin"
                 elif pyname in SUPPORT:
                     ok, why = True, "a support name whose import is registered where it is rendered (R-C16-1)"
+                elif mname in dedicated:
+                    ok, why = True, "as a type it is rendered by its own arm of StringName::to_py (import pairing: R-C16-1); the table row only renames identifiers consistently"
                 elif pyname not in stubs and mname not in stubs:
                     ok, why = True, "no class of this name exists in the context, so it cannot be rendered as a type"
                 else:
